@@ -204,6 +204,14 @@ PROPS = {
     "C34": graphprop("Channels", "Channels", ["MC_Channels_oneshot.cfg", "MC_Channels_mpsc.cfg", "MC_Channels_notification.cfg"],
                      ["poll:value", "poll:pending", "poll:disconnected", "drop:last-sender"],
                      "channels driven through the cfg(dust_dds_verif) re-export; every operation of the code is one critical section"),
+    "C36": graphprop("Entities", "Entities", ["MC_Entities.cfg"],
+                     ["delete:not-empty", "delete:topic-in-use", "delete:already-deleted", "use:deleted-entity", "delete-contained",
+                      "delete:wrong-parent", "create:parent-deleted"],
+                     "entity tree driven through the public async API inside the deterministic simulation (no network traffic needed)"),
+    "C35": graphprop("Entities", "Entities", ["MC_Entities_C35.cfg"], ["create", "delete"],
+                     "entity tree driven through the async API after warming the 8-bit publisher/subscriber counters to 254"),
+    "C38": graphprop("FragSize", "FragSize", ["MC_FragSize.cfg"], ["set:accepted", "set:rejected"],
+                     "public RtpsUdpTransportParticipantFactory API"),
     "C32": combine(graphprop("StatusWait", "StatusWait", ["MC_StatusWait.cfg"],
                              ["setenabled:releases-registered-waiter", "await:released", "await:waiting", "register"],
                              "DcpsStatusCondition driven through the cfg(dust_dds_verif) re-export with real notification channels"),
